@@ -79,8 +79,10 @@ type pendingControlRequest struct {
 }
 
 // forwardedControlRequest tracks a request we forwarded so we can route the response back.
+// The table is keyed by the ID we forwarded the request under (allocated from our own
+// nextControlID), because request IDs are only unique per issuing agent.
 type forwardedControlRequest struct {
-	RequestID  uint64
+	RequestID  uint64           // ID the request had when it reached us (restored in the response)
 	SourcePeer identity.AgentID // Peer who sent us the request
 	CreatedAt  time.Time
 }
@@ -166,7 +168,7 @@ type Agent struct {
 	// Control request tracking
 	controlMu        sync.RWMutex
 	pendingControl   map[uint64]*pendingControlRequest   // Request ID -> pending request (for requests we initiated)
-	forwardedControl map[uint64]*forwardedControlRequest // Request ID -> source peer (for requests we forwarded)
+	forwardedControl map[uint64]*forwardedControlRequest // Forwarded ID -> source peer and original ID (for requests we forwarded)
 	nextControlID    uint64
 
 	// Route advertisement trigger channel
@@ -2412,9 +2414,16 @@ func (a *Agent) handleControlRequest(peerID identity.AgentID, frame *protocol.Fr
 			return
 		}
 
-		// Track this forwarded request so we can route the response back
+		// Track this forwarded request so we can route the response back.
+		// Request IDs are sequential per issuing agent, so two upstream agents
+		// (or an upstream agent and this agent itself) routinely use the same
+		// ID at the same time. Forward under a fresh ID from our own counter,
+		// which also numbers our own pending requests, and remember the
+		// original ID so it can be restored in the response.
 		a.controlMu.Lock()
-		a.forwardedControl[req.RequestID] = &forwardedControlRequest{
+		a.nextControlID++
+		forwardID := a.nextControlID
+		a.forwardedControl[forwardID] = &forwardedControlRequest{
 			RequestID:  req.RequestID,
 			SourcePeer: peerID,
 			CreatedAt:  time.Now(),
@@ -2429,7 +2438,7 @@ func (a *Agent) handleControlRequest(peerID identity.AgentID, frame *protocol.Fr
 			"source_peer", peerID.ShortString())
 
 		fwdReq := &protocol.ControlRequest{
-			RequestID:   req.RequestID,
+			RequestID:   forwardID,
 			ControlType: req.ControlType,
 			TargetAgent: req.TargetAgent,
 			Path:        remainingPath,
@@ -2446,7 +2455,7 @@ func (a *Agent) handleControlRequest(peerID identity.AgentID, frame *protocol.Fr
 				logging.KeyPeerID, nextHop.ShortString(),
 				logging.KeyError, err)
 			a.controlMu.Lock()
-			delete(a.forwardedControl, req.RequestID)
+			delete(a.forwardedControl, forwardID)
 			a.controlMu.Unlock()
 			a.sendControlResponse(peerID, req.RequestID, req.ControlType, false, []byte("failed to forward: "+err.Error()))
 		}
@@ -2521,9 +2530,12 @@ func (a *Agent) handleControlResponse(peerID identity.AgentID, frame *protocol.F
 
 	if hasForwarded {
 		// We forwarded this request, route response back to source peer
+		// under the ID the source peer knows it by
 		a.logger.Debug("forwarding control response",
 			"to", forwarded.SourcePeer.ShortString(),
-			"request_id", resp.RequestID)
+			"request_id", forwarded.RequestID,
+			"forwarded_id", resp.RequestID)
+		resp.RequestID = forwarded.RequestID
 
 		responseFrame := &protocol.Frame{
 			Type:     protocol.FrameControlResponse,
